@@ -18,10 +18,14 @@ if "--tier" in args:
     i = args.index("--tier"); tier = args[i + 1]; del args[i:i + 2]
 if "--checks" in args:
     i = args.index("--checks"); checks = args[i + 1].split(","); del args[i:i + 2]
+rnd = ""
+if "--round" in args:
+    i = args.index("--round"); rnd = args[i + 1]; del args[i:i + 2]
 pid, k = args[0], args[1]
 checks = checks or [pid]
-src = "/tmp/seeded/%s/%s" % (pid, k)
-dst = os.path.join(ROOT, "seeded", "%s-%s" % (pid, k))
+src = "/tmp/seeded%s/%s/%s" % (rnd if rnd != "1" else "", pid, k)
+dst = os.path.join(ROOT, "seeded", "%s-%s%s" % (pid, ("r%s-" % rnd) if rnd else "", k))
+wt = "wt%s-%s" % (rnd if rnd and rnd != "1" else "", pid)
 if not os.path.isdir(src) and os.path.isdir(dst):
     src = dst
 patch = os.path.join(src, "patch.diff")
@@ -32,14 +36,18 @@ for d in demos:
     head += open(d, errors="replace").read(3000)
 notes = open(os.path.join(src, "notes.md"), errors="replace").read() if os.path.exists(os.path.join(src, "notes.md")) else ""
 # where does the demo go, how is it run
-m = re.search(r"(?:cp|copy to)\s+\S*?(demo\S*)\s+/tmp/wt-%s/(\S+)" % pid, head + notes) or re.search(r"/tmp/wt-%s/(\S+?_test\.go|\S+?main\.go)" % pid, head + notes)
+mp_ = re.search(r"//\s*PLACE:\s*(\S+)", head)
+mr_ = re.search(r"//\s*RUN:\s*(go [^\n]+)", head)
+m = re.search(r"(?:cp|copy to)\s+\S*?(demo\S*)\s+/tmp/%s/(\S+)" % wt, head + notes) or re.search(r"/tmp/%s/(\S+?_test\.go|\S+?main\.go)" % wt, head + notes)
 place = None
 if m:
     place = m.group(m.lastindex).strip("`'\",.;:)")
 m2 = re.search(r"(go (?:test|run)[^\n`]*)", head + notes)
 run = m2.group(1).strip() if m2 else None
 if run:
-    run = re.sub(r"/tmp/wt-%s/?" % pid, "./", run)
+    run = re.sub(r"/tmp/%s/?" % wt, "./", run)
+if mp_ and mr_:
+    place, run = mp_.group(1).strip(), mr_.group(1).strip()
 if not place or not run:
     print("cannot work out demo placement/run from the header; place=%r run=%r" % (place, run)); sys.exit(2)
 meta["demo_place"] = place
